@@ -233,7 +233,7 @@ WStep(a) ==
 GenNext ==
   /\ W.n < MaxDepth
   /\ \E x \in {GenDraw} :
-       LET r == SeqStep(S, x.a, x.ev, [ok |-> TRUE, fresh |-> TRUE]) IN
+       LET r == SeqStep(S, x.a, x.ev, [ok |-> TRUE, denied |-> FALSE, fresh |-> TRUE]) IN
        /\ S' = r.st
        /\ W' = WStep(x.a)
        /\ hist' = Append(hist, x.a)
